@@ -187,41 +187,12 @@ def V2Lay.tolerated (lay : V2Lay) : Bool :=
   nonEmptyWs lay.s0 && nonEmptyWs lay.s1 && nonEmptyWs lay.s2 && nonEmptyWs lay.s3 && nonEmptyWs lay.s4 &&
   lay.beforeClose.all isAsciiSpace && lay.gap.all isAsciiSpace
 
-/-! ### guards of the partial theorem (the two defects of the pinned tree, and the v2 quote restriction) -/
-
-/-- some separator written in the file contains a line feed -/
-def V1Lay.headerHasLF (lay : V1Lay) (withCompression : Bool) : Bool :=
-  lay.ofxheader.sep.hasLF || lay.data.sep.hasLF || lay.version.sep.hasLF || lay.security.sep.hasLF ||
-  lay.encoding.sep.hasLF || lay.charset.sep.hasLF || (withCompression && lay.compression.sep.hasLF) ||
-  lay.oldfileuid.sep.hasLF
-
-/-- defect 1 is avoided: not (multi-line header with the body glued to the NEWFILEUID value) -/
-def V1Lay.notGlued (lay : V1Lay) (withCompression : Bool) : Bool :=
-  !(lay.headerHasLF withCompression && lay.gap.isEmpty)
-
 /-- the first `n` lines (each through its LF) of a byte string -/
 def firstLines : Nat → Bytes → Bytes
   | 0, _ => []
   | n + 1, bs =>
     let l := splitLine bs
     l ++ firstLines n (bs.drop l.length)
-
-/-- defect 2 is avoided: the nine lines `parse_header` reads as header text are ASCII -/
-def headerLinesAscii (lay : V1Lay) (f : V1File) (body : Bytes) : Bool :=
-  (firstLines 9 (asciiBytes (lay.indent ++ v1Fields lay f) ++ body)).all fun b => b.toNat < 128
-
-/-- the OFX declaration uses double quotes only (`OFXHeaderV2.regex` accepts nothing else) -/
-def V2Lay.dquoted (lay : V2Lay) : Bool :=
-  lay.q0 = .dq && lay.q1 = .dq && lay.q2 = .dq && lay.q3 = .dq && lay.q4 = .dq
-
-/-- defect 2, v2 form, is avoided: the line on which the XML declaration is looked for is ASCII -/
-def firstLineAscii (lay : V2Lay) (h : V2) (body : Bytes) : Bool :=
-  (firstLines 1 (asciiBytes (v2Xml lay ++ (lay.afterXml ++ v2Ofx lay h)) ++ body)).all fun b => b.toNat < 128
-
-/-- the layout guard of `C05_exact_partial` -/
-def guard : FileSpec → Bytes → Bool
-  | .v1 lay f, body => lay.notGlued f.withCompression && headerLinesAscii lay f body
-  | .v2 lay h, body => lay.dquoted && firstLineAscii lay h body
 
 def tolerated : FileSpec → Bool
   | .v1 lay _ => lay.tolerated
